@@ -5,6 +5,9 @@ import (
 	"encoding/json"
 	"fmt"
 	"math/big"
+	"sort"
+	"strconv"
+	"strings"
 	"time"
 
 	"go.sia.tech/core/blake2b"
@@ -17,6 +20,7 @@ type Applied struct {
 	Block  types.Block
 	Supp   consensus.V1BlockSupplement
 	Prev   consensus.State
+	Next   consensus.State
 	Update consensus.ApplyUpdate
 	Snap   *Snapshot // store before the block (only when Sim.KeepSnapshots)
 }
@@ -83,11 +87,9 @@ type Sim struct {
 	Gen   types.Block
 
 	KeepSnapshots bool
+	Timestamps    map[uint64]time.Time // optional block timestamps by height (default: genesis + height x 10 min)
 
 	// structural → real
-	txid    map[[2]int]types.TransactionID // (height, index in block)
-	txver   map[[2]int]int
-	v1tx    map[[2]int]types.Transaction
 	blockID map[int]types.BlockID
 	real    map[SID][32]byte // derived ids registered while building
 
@@ -100,7 +102,6 @@ type Sim struct {
 func NewSim(p Params) *Sim {
 	k := NewKeyring()
 	s := &Sim{P: p, K: k, Net: Network(p, k), Store: newStore(),
-		txid: map[[2]int]types.TransactionID{}, txver: map[[2]int]int{}, v1tx: map[[2]int]types.Transaction{},
 		blockID: map[int]types.BlockID{}, real: map[SID][32]byte{}}
 	var gtx types.Transaction
 	for _, o := range p.GenSC {
@@ -112,7 +113,7 @@ func NewSim(p Params) *Sim {
 	s.Gen = types.Block{Timestamp: GenesisTime, Transactions: []types.Transaction{gtx}}
 	cs, au := consensus.ApplyBlock(s.Net.GenesisState(), s.Gen, consensus.V1BlockSupplement{Transactions: make([]consensus.V1TransactionSupplement, 1)}, time.Time{})
 	s.CS = cs
-	s.registerV1(0, 0, gtx)
+	registerV1(s.real, 0, 0, gtx)
 	s.blockID[0] = s.Gen.ID()
 	s.applyDiffs(au)
 	return s
@@ -120,33 +121,44 @@ func NewSim(p Params) *Sim {
 
 func (s *Sim) child() uint64 { return s.CS.Index.Height + 1 }
 
-func (s *Sim) registerV1(b, t int, txn types.Transaction) {
-	s.txid[[2]int{b, t}] = txn.ID()
-	s.txver[[2]int{b, t}] = 1
-	s.v1tx[[2]int{b, t}] = txn
+func registerV1(reg map[SID][32]byte, b, t int, txn types.Transaction) {
 	for i := range txn.SiacoinOutputs {
-		s.real[SID{SCO, b, t, i + 1, 0}] = txn.SiacoinOutputID(i)
+		reg[SID{SCO, b, t, i + 1, 0}] = txn.SiacoinOutputID(i)
 	}
 	for i := range txn.SiafundOutputs {
-		s.real[SID{SFO, b, t, i + 1, 0}] = txn.SiafundOutputID(i)
+		reg[SID{SFO, b, t, i + 1, 0}] = txn.SiafundOutputID(i)
 	}
 	for i := range txn.FileContracts {
-		s.real[SID{FC1, b, t, i + 1, 0}] = txn.FileContractID(i)
+		reg[SID{FC1, b, t, i + 1, 0}] = txn.FileContractID(i)
 	}
 }
 
-func (s *Sim) registerV2(b, t int, txn types.V2Transaction) {
+func registerV2(reg map[SID][32]byte, b, t int, txn types.V2Transaction) {
 	txid := txn.ID()
-	s.txid[[2]int{b, t}] = txid
-	s.txver[[2]int{b, t}] = 2
 	for i := range txn.SiacoinOutputs {
-		s.real[SID{SCO, b, t, i + 1, 0}] = txn.SiacoinOutputID(txid, i)
+		reg[SID{SCO, b, t, i + 1, 0}] = txn.SiacoinOutputID(txid, i)
 	}
 	for i := range txn.SiafundOutputs {
-		s.real[SID{SFO, b, t, i + 1, 0}] = txn.SiafundOutputID(txid, i)
+		reg[SID{SFO, b, t, i + 1, 0}] = txn.SiafundOutputID(txid, i)
 	}
 	for i := range txn.FileContracts {
-		s.real[SID{FC2, b, t, i + 1, 0}] = txn.V2FileContractID(txid, i)
+		reg[SID{FC2, b, t, i + 1, 0}] = txn.V2FileContractID(txid, i)
+	}
+}
+
+// look resolves a structural id: ids derived in the block under construction first, then the applied history.
+func (b *BlockCtx) look(id SID) ([32]byte, bool) {
+	if r, ok := b.reg[id]; ok {
+		return r, true
+	}
+	r, ok := b.s.real[id]
+	return r, ok
+}
+
+// Commit makes the ids derived while building the block part of the applied history.
+func (b *BlockCtx) Commit() {
+	for k, v := range b.reg {
+		b.s.real[k] = v
 	}
 }
 
@@ -361,13 +373,15 @@ type BlockCtx struct {
 	V1     []types.Transaction
 	V2     []types.V2Transaction
 	newFC  map[types.FileContractID]bool
+	reg    map[SID][32]byte // ids derived while building; committed to the Sim only when the block is applied
+	pool   types.Currency   // siafund pool as of the next transaction (an honest builder's claim start for ephemeral siafund parents)
 }
 
 // NewBlockCtx starts a block on the current tip.
 func (s *Sim) NewBlockCtx() *BlockCtx {
 	return &BlockCtx{s: s, height: int(s.child()), ephSC: map[types.SiacoinOutputID]types.SiacoinElement{},
 		ephSF: map[types.SiafundOutputID]types.SiafundElement{}, curFC: map[types.FileContractID]types.FileContract{},
-		curV2: map[types.FileContractID]types.V2FileContract{}, newFC: map[types.FileContractID]bool{}}
+		curV2: map[types.FileContractID]types.V2FileContract{}, newFC: map[types.FileContractID]bool{}, reg: map[SID][32]byte{}, pool: s.CS.SiafundTaxRevenue}
 }
 
 func (s *Sim) fileRoot(size uint64) types.Hash256 {
@@ -473,9 +487,13 @@ type ErrUnknown struct{ What string }
 func (e ErrUnknown) Error() string { return "chain: cannot concretise: " + e.What }
 
 // Add concretises an abstract transaction and appends it to the block under construction.
-func (b *BlockCtx) Add(t AbsTx) error {
-	s := b.s
-	var err error
+func (b *BlockCtx) Add(t AbsTx) (err error) {
+	defer func() {
+		if r := recover(); r != nil {
+			js, _ := json.Marshal(t)
+			err = ErrUnknown{fmt.Sprintf("panic while building %s: %v", js, r)}
+		}
+	}()
 	if t.Ver == 1 {
 		var txn types.Transaction
 		txn, err = b.buildV1(t)
@@ -484,14 +502,17 @@ func (b *BlockCtx) Add(t AbsTx) error {
 				return ErrUnknown{"v1 transaction after a v2 transaction"}
 			}
 			b.V1 = append(b.V1, txn)
-			s.registerV1(b.height, b.n, txn)
+			registerV1(b.reg, b.height, b.n, txn)
 			for i, o := range txn.SiacoinOutputs {
 				id := txn.SiacoinOutputID(i)
 				b.ephSC[id] = types.SiacoinElement{ID: id, StateElement: types.StateElement{LeafIndex: types.UnassignedLeafIndex}, SiacoinOutput: o}
 			}
 			for i, o := range txn.SiafundOutputs {
 				id := txn.SiafundOutputID(i)
-				b.ephSF[id] = types.SiafundElement{ID: id, StateElement: types.StateElement{LeafIndex: types.UnassignedLeafIndex}, SiafundOutput: o}
+				b.ephSF[id] = types.SiafundElement{ID: id, StateElement: types.StateElement{LeafIndex: types.UnassignedLeafIndex}, SiafundOutput: o, ClaimStart: b.pool}
+			}
+			for _, fc := range txn.FileContracts {
+				b.pool = b.pool.Add(b.s.CS.FileContractTax(fc))
 			}
 			for i, fc := range txn.FileContracts {
 				b.curFC[txn.FileContractID(i)] = fc
@@ -507,14 +528,23 @@ func (b *BlockCtx) Add(t AbsTx) error {
 		txn, err = b.buildV2(t)
 		if err == nil {
 			b.V2 = append(b.V2, txn)
-			s.registerV2(b.height, b.n, txn)
+			registerV2(b.reg, b.height, b.n, txn)
 			for i := range txn.SiacoinOutputs {
 				e := txn.EphemeralSiacoinOutput(i)
 				b.ephSC[e.ID] = e
 			}
 			for i := range txn.SiafundOutputs {
 				e := txn.EphemeralSiafundOutput(i)
+				e.ClaimStart = b.pool
 				b.ephSF[e.ID] = e
+			}
+			for _, fc := range txn.FileContracts {
+				b.pool = b.pool.Add(b.s.CS.V2FileContractTax(fc))
+			}
+			for _, r := range txn.FileContractResolutions {
+				if ren, ok := r.Resolution.(*types.V2FileContractRenewal); ok {
+					b.pool = b.pool.Add(b.s.CS.V2FileContractTax(ren.NewContract))
+				}
 			}
 			for _, r := range txn.FileContractRevisions {
 				b.curV2[r.Parent.ID] = r.Revision
@@ -529,7 +559,7 @@ func (b *BlockCtx) Add(t AbsTx) error {
 }
 
 func (b *BlockCtx) scid(id SID) (types.SiacoinOutputID, error) {
-	r, ok := b.s.real[id]
+	r, ok := b.look(id)
 	if !ok {
 		return types.SiacoinOutputID{}, ErrUnknown{"siacoin id " + id.String()}
 	}
@@ -564,7 +594,7 @@ func (b *BlockCtx) buildV1(t AbsTx) (types.Transaction, error) {
 	}
 	txn.SiacoinOutputs = s.outs(t.Sco)
 	for _, in := range t.Sfi {
-		r, ok := s.real[in.ID]
+		r, ok := b.look(in.ID)
 		if !ok {
 			return txn, ErrUnknown{"siafund id " + in.ID.String()}
 		}
@@ -575,7 +605,7 @@ func (b *BlockCtx) buildV1(t AbsTx) (types.Transaction, error) {
 		}
 		txn.SiafundInputs = append(txn.SiafundInputs, types.SiafundInput{ParentID: id, UnlockConditions: s.K.UC(owner), ClaimAddress: s.K.Addr(in.Claim)})
 		signers = append(signers, signer{types.Hash256(id), owner, in.Auth})
-		s.real[SID{CLAIM, in.ID[1], in.ID[2], in.ID[3], in.ID[4]}] = id.ClaimOutputID()
+		b.reg[SID{CLAIM, in.ID[1], in.ID[2], in.ID[3], in.ID[4]}] = id.ClaimOutputID()
 	}
 	for _, o := range t.Sfo {
 		txn.SiafundOutputs = append(txn.SiafundOutputs, types.SiafundOutput{Value: o.Val, Address: s.K.Addr(o.Addr)})
@@ -595,7 +625,7 @@ func (b *BlockCtx) buildV1(t AbsTx) (types.Transaction, error) {
 		if err := json.Unmarshal(r.C, &c); err != nil {
 			return txn, err
 		}
-		rid, ok := s.real[r.Cid]
+		rid, ok := b.look(r.Cid)
 		if !ok {
 			return txn, ErrUnknown{"contract id " + r.Cid.String()}
 		}
@@ -609,7 +639,7 @@ func (b *BlockCtx) buildV1(t AbsTx) (types.Transaction, error) {
 		signers = append(signers, signer{types.Hash256(rid), owner, r.Auth})
 	}
 	for _, r := range t.Res {
-		rid, ok := s.real[r.Cid]
+		rid, ok := b.look(r.Cid)
 		if !ok {
 			return txn, ErrUnknown{"contract id " + r.Cid.String()}
 		}
@@ -636,7 +666,7 @@ func (b *BlockCtx) buildV1(t AbsTx) (types.Transaction, error) {
 		}
 		txn.StorageProofs = append(txn.StorageProofs, sp)
 		for j := range fc.ValidProofOutputs {
-			s.real[SID{VALID, r.Cid[1], r.Cid[2], r.Cid[3], j}] = fcid.ValidOutputID(j)
+			b.reg[SID{VALID, r.Cid[1], r.Cid[2], r.Cid[3], j}] = fcid.ValidOutputID(j)
 		}
 	}
 	if t.Fnd != "" {
@@ -661,7 +691,11 @@ func (b *BlockCtx) buildV1(t AbsTx) (types.Transaction, error) {
 				sg = x
 			}
 		}
-		h := s.CS.WholeSigHash(txn, txn.Signatures[i].ParentID, 0, 0, nil)
+		if strings.HasPrefix(sg.auth, "siglock") {
+			tl, _ := strconv.ParseUint(strings.TrimPrefix(sg.auth, "siglock"), 10, 64)
+			txn.Signatures[i].Timelock = tl
+		}
+		h := s.CS.WholeSigHash(txn, txn.Signatures[i].ParentID, 0, txn.Signatures[i].Timelock, nil)
 		sig := s.K.SK(sg.name).SignHash(h)
 		if sg.auth == "badsig" {
 			sig[5] ^= 4
@@ -699,7 +733,7 @@ func (b *BlockCtx) buildV2(t AbsTx) (types.V2Transaction, error) {
 	}
 	txn.SiacoinOutputs = s.outs(t.Sco)
 	for _, in := range t.Sfi {
-		r, ok := s.real[in.ID]
+		r, ok := b.look(in.ID)
 		if !ok {
 			return txn, ErrUnknown{"siafund id " + in.ID.String()}
 		}
@@ -710,7 +744,7 @@ func (b *BlockCtx) buildV2(t AbsTx) (types.V2Transaction, error) {
 		owner := s.K.NameOf(e.SiafundOutput.Address)
 		txn.SiafundInputs = append(txn.SiafundInputs, types.V2SiafundInput{Parent: e, ClaimAddress: s.K.Addr(in.Claim), SatisfiedPolicy: types.SatisfiedPolicy{Policy: s.K.Policy(owner)}})
 		ins = append(ins, inAuth{owner, in.Auth, true, len(txn.SiafundInputs) - 1})
-		s.real[SID{CLAIM, in.ID[1], in.ID[2], in.ID[3], in.ID[4]}] = e.ID.V2ClaimOutputID()
+		b.reg[SID{CLAIM, in.ID[1], in.ID[2], in.ID[3], in.ID[4]}] = e.ID.V2ClaimOutputID()
 	}
 	for _, o := range t.Sfo {
 		txn.SiafundOutputs = append(txn.SiafundOutputs, types.SiafundOutput{Value: o.Val, Address: s.K.Addr(o.Addr)})
@@ -726,7 +760,7 @@ func (b *BlockCtx) buildV2(t AbsTx) (types.V2Transaction, error) {
 		txn.FileContracts = append(txn.FileContracts, fc)
 	}
 	parent := func(cid SID) (types.V2FileContractElement, error) {
-		rid, ok := s.real[cid]
+		rid, ok := b.look(cid)
 		if !ok {
 			return types.V2FileContractElement{}, ErrUnknown{"contract id " + cid.String()}
 		}
@@ -795,13 +829,13 @@ func (b *BlockCtx) buildV2(t AbsTx) (types.V2Transaction, error) {
 				ren.HostSignature[7] ^= 2
 			}
 			res = ren
-			s.real[SID{FC2, r.Cid[1], r.Cid[2], r.Cid[3], r.Cid[4] + 1}] = p.ID.V2RenewalID()
+			b.reg[SID{FC2, r.Cid[1], r.Cid[2], r.Cid[3], r.Cid[4] + 1}] = p.ID.V2RenewalID()
 		default:
 			return txn, ErrUnknown{"resolution kind " + r.Kind}
 		}
 		txn.FileContractResolutions = append(txn.FileContractResolutions, types.V2FileContractResolution{Parent: p, Resolution: res})
-		s.real[SID{RENTER, r.Cid[1], r.Cid[2], r.Cid[3], r.Cid[4]}] = p.ID.V2RenterOutputID()
-		s.real[SID{HOST, r.Cid[1], r.Cid[2], r.Cid[3], r.Cid[4]}] = p.ID.V2HostOutputID()
+		b.reg[SID{RENTER, r.Cid[1], r.Cid[2], r.Cid[3], r.Cid[4]}] = p.ID.V2RenterOutputID()
+		b.reg[SID{HOST, r.Cid[1], r.Cid[2], r.Cid[3], r.Cid[4]}] = p.ID.V2HostOutputID()
 	}
 	if t.Fnd != "" {
 		a := s.K.Addr(t.Fnd)
@@ -892,7 +926,11 @@ func (s *Sim) Seal(v1 []types.Transaction, v2 []types.V2Transaction) types.Block
 		pay, _ = pay.AddWithOverflow(t.MinerFee)
 	}
 	miner := s.K.Addr("A")
-	b := types.Block{ParentID: s.CS.Index.ID, Timestamp: GenesisTime.Add(time.Duration(child) * 10 * time.Minute),
+	ts := GenesisTime.Add(time.Duration(child) * 10 * time.Minute)
+	if t, ok := s.Timestamps[child]; ok {
+		ts = t
+	}
+	b := types.Block{ParentID: s.CS.Index.ID, Timestamp: ts,
 		MinerPayouts: []types.SiacoinOutput{{Address: miner, Value: pay}}, Transactions: v1}
 	if child >= s.Net.HardforkV2.AllowHeight {
 		b.V2 = &types.V2BlockData{Height: child, Transactions: v2}
@@ -940,7 +978,7 @@ func (s *Sim) Apply(b types.Block, bs consensus.V1BlockSupplement) consensus.App
 			}
 		}
 	}
-	s.Chain = append(s.Chain, Applied{Block: b, Supp: bs, Prev: prev, Update: au, Snap: snap})
+	s.Chain = append(s.Chain, Applied{Block: b, Supp: bs, Prev: prev, Next: cs, Update: au, Snap: snap})
 	s.CS = cs
 	s.applyDiffs(au)
 	if s.OnApply != nil {
@@ -1096,4 +1134,127 @@ func (s *Sim) Sums() (utxo, locked1, locked2, pool *big.Int, sfTotal uint64) {
 		sfTotal += e.SiafundOutput.Value
 	}
 	return utxo, locked1, locked2, s.CS.SiafundTaxRevenue.Big(), sfTotal
+}
+
+// VerifyStore checks every live element of the store (and every chain index element) against the
+// current accumulator; it returns a description of each element that does not verify.
+func (s *Sim) VerifyStore() []string {
+	var bad []string
+	acc := s.CS.Elements
+	for id, e := range s.Store.SC {
+		e := e.Copy()
+		if !acc.VerifContainsLeaf(consensus.VerifSiacoinLeaf(&e, false)) {
+			bad = append(bad, fmt.Sprintf("siacoin element %v", id))
+		}
+	}
+	for id, e := range s.Store.SF {
+		e := e.Copy()
+		if !acc.VerifContainsLeaf(consensus.VerifSiafundLeaf(&e, false)) {
+			bad = append(bad, fmt.Sprintf("siafund element %v", id))
+		}
+	}
+	for id, e := range s.Store.FC {
+		e := e.Copy()
+		if !acc.VerifContainsLeaf(consensus.VerifFileContractLeaf(&e, nil, false)) {
+			bad = append(bad, fmt.Sprintf("v1 contract %v", id))
+		}
+	}
+	for id, e := range s.Store.V2FC {
+		e := e.Copy()
+		if !acc.VerifContainsLeaf(consensus.VerifV2FileContractLeaf(&e, nil, false)) {
+			bad = append(bad, fmt.Sprintf("v2 contract %v", id))
+		}
+	}
+	for h, e := range s.Store.CIE {
+		e := e.Copy()
+		if !acc.VerifContainsLeaf(consensus.VerifChainIndexLeaf(&e)) {
+			bad = append(bad, fmt.Sprintf("chain index %d", h))
+		}
+	}
+	for id, e := range s.Store.GoneSC {
+		e := e.Copy()
+		if !acc.VerifContainsLeaf(consensus.VerifSiacoinLeaf(&e, true)) {
+			bad = append(bad, fmt.Sprintf("spent siacoin element %v (as spent)", id))
+		}
+	}
+	for id, e := range s.Store.GoneV2FC {
+		e := e.Copy()
+		if !acc.VerifContainsLeaf(consensus.VerifV2FileContractLeaf(&e, nil, true)) {
+			bad = append(bad, fmt.Sprintf("resolved v2 contract %v (as resolved)", id))
+		}
+	}
+	sort.Strings(bad)
+	return bad
+}
+
+// DiffSnap compares the live store with a snapshot as sets of (id, fields, leaf index).
+func (s *Sim) DiffSnap(snap *Snapshot) []string {
+	var out []string
+	strip := func(se types.StateElement) types.StateElement { se.MerkleProof = nil; return se.Move() }
+	for id, want := range snap.SC {
+		got, ok := s.Store.SC[id]
+		if !ok {
+			out = append(out, fmt.Sprintf("siacoin element %v missing", id))
+			continue
+		}
+		got.StateElement, want.StateElement = strip(got.StateElement), strip(want.StateElement)
+		if fmt.Sprintf("%+v", got) != fmt.Sprintf("%+v", want) {
+			out = append(out, fmt.Sprintf("siacoin element %v: %+v, before the block %+v", id, got, want))
+		}
+	}
+	for id := range s.Store.SC {
+		if _, ok := snap.SC[id]; !ok {
+			out = append(out, fmt.Sprintf("siacoin element %v should not exist", id))
+		}
+	}
+	for id, want := range snap.SF {
+		got, ok := s.Store.SF[id]
+		if !ok {
+			out = append(out, fmt.Sprintf("siafund element %v missing", id))
+			continue
+		}
+		got.StateElement, want.StateElement = strip(got.StateElement), strip(want.StateElement)
+		if fmt.Sprintf("%+v", got) != fmt.Sprintf("%+v", want) {
+			out = append(out, fmt.Sprintf("siafund element %v: %+v, before the block %+v", id, got, want))
+		}
+	}
+	for id := range s.Store.SF {
+		if _, ok := snap.SF[id]; !ok {
+			out = append(out, fmt.Sprintf("siafund element %v should not exist", id))
+		}
+	}
+	for id, want := range snap.FC {
+		got, ok := s.Store.FC[id]
+		if !ok {
+			out = append(out, fmt.Sprintf("v1 contract %v missing", id))
+			continue
+		}
+		got.StateElement, want.StateElement = strip(got.StateElement), strip(want.StateElement)
+		if fmt.Sprintf("%+v", got) != fmt.Sprintf("%+v", want) {
+			out = append(out, fmt.Sprintf("v1 contract %v: %+v, before the block %+v", id, got, want))
+		}
+	}
+	for id := range s.Store.FC {
+		if _, ok := snap.FC[id]; !ok {
+			out = append(out, fmt.Sprintf("v1 contract %v should not exist", id))
+		}
+	}
+	for id, want := range snap.V2FC {
+		got, ok := s.Store.V2FC[id]
+		if !ok {
+			out = append(out, fmt.Sprintf("v2 contract %v missing", id))
+			continue
+		}
+		got.StateElement, want.StateElement = strip(got.StateElement), strip(want.StateElement)
+		if fmt.Sprintf("%+v", got) != fmt.Sprintf("%+v", want) {
+			out = append(out, fmt.Sprintf("v2 contract %v: %+v, before the block %+v", id, got, want))
+		}
+	}
+	for id := range s.Store.V2FC {
+		if _, ok := snap.V2FC[id]; !ok {
+			out = append(out, fmt.Sprintf("v2 contract %v should not exist", id))
+		}
+	}
+	sort.Strings(out)
+	return out
 }
